@@ -107,7 +107,17 @@ InitS4 == \E sl \in {"k64a", "k64b"} :
           \/ c = SCase(<<In("s11a"), In(sl)>>, AggSig(Range(0, 64), Range(0, 64), "G", "ok"))
           \/ c = SCase(<<In("s11a"), In(sl)>>, AggSig(Range(0, 63), Range(0, 63), "G", "ok"))
 
-InitS == InitS1 \/ InitS2 \/ InitS3 \/ InitS4 \/ InitSA
+\* compensated pairs: two good signatures with S halves shifted by +d / -d
+InitS5 == \/ \E a \in {"K1", "G"}, b \in {"K2", "G"} :
+               c = SCase(<<In("s22a")>>, MapsSig(<< <<Ent(0, a), Ent(1, b)>> >>))
+          \/ \E a \in {"K1", "G"}, b \in {"K2", "G"} :
+               c = SCase(<<In("s11a"), In("s11b")>>, MapsSig(<< <<Ent(0, a)>>, <<Ent(0, b)>> >>))
+          \/ \E a \in {"K1", "G"}, b \in {"K2", "G"}, d \in {"G", "-"} :
+               c = SCase(<<In("s21a"), In("s32b")>>,
+                         MapsSig(<< <<Ent(0, a)>>, (IF d = "-" THEN <<Ent(0, "G"), Ent(2, b)>> ELSE <<Ent(0, b), Ent(1, "G"), Ent(2, "G")>>) >>))
+          \/ c = SCase(<<In("k64b")>>, MapsSig(<<[j \in 1..40 |-> Ent(j - 1, IF j = 3 THEN "K1" ELSE IF j = 38 THEN "K2" ELSE "G")]>>))
+
+InitS == InitS1 \/ InitS2 \/ InitS3 \/ InitS4 \/ InitS5 \/ InitSA
 
 --------------------------------------------------------------------------
 (* family V: values, assets, types (C01) *)
@@ -206,7 +216,24 @@ InitV3 == \E a \in SpecAmts, asset \in {"XIN", "BTC", "OTH", "NEW"}, sg \in Spec
              /\ (\A i \in 1..Len(os) : AmtCmp(os[i], Amt(0, 0, 0, 0, -1000)) > 0 \/ os[i].c > 0)
              /\ c = [Case("A", asset, ins, ScriptOuts(os), SigOf(sg, World("A"), ins)) EXCEPT !.extra = "e0"]
 
-InitV == InitV1 \/ InitV2 \/ InitV3
+\* machine-word boundaries: operands just below 2^63, 2^63, 2^64-1, 2^127 and sums crossing 2^64 / 2^128
+W1 == AmtW(0, 1, 0)
+BoundAmts == <<U(5), AmtW(0, 1, -1), W1, AmtW(0, 1, 5), AmtW(0, 2, -1), AmtW(1, 0, 0), AmtW(1, 0, 5)>>
+BoundIns == IF Size = "quick" THEN {U(5), W1, AmtW(0, 2, -1), AmtW(1, 0, 0)}
+            ELSE SeqSet(BoundAmts) \cup {AmtW(0, 2, 5), AmtW(2, 0, 5), AmtW(0, 2, 0)}
+InitV4 == \/ \E src \in {"mint", "depNEW", "depOTH"}, a \in BoundIns, i \in 1..Len(BoundAmts), j \in 0..Len(BoundAmts) :
+               /\ (j = 0 \/ i <= j)
+               /\ (Size = "quick" => src # "depOTH")
+               /\ LET os == IF j = 0 THEN <<BoundAmts[i]>> ELSE <<BoundAmts[i], BoundAmts[j]>>
+                      ins == IF src = "mint" THEN <<MintIn("next", a)>> ELSE <<DepIn("ok", a)>>
+                      asset == CASE src = "mint" -> "XIN" [] src = "depNEW" -> "NEW" [] OTHER -> "OTH"
+                  IN c = [Case("A", asset, ins, ScriptOuts(os), SigOf(IF src = "mint" THEN "empty" ELSE "cust", World("A"), ins))
+                             EXCEPT !.extra = "e0"]
+          \/ \E ins \in { <<In("ow1"), In("ow2")>>, <<In("ow1"), In("ow2"), In("o1")>>, <<In("ow1"), In("o1")>> },
+                os \in { <<U(1)>>, <<W1, W1>>, <<W1, AmtW(0, 1, 1)>>, <<AmtW(0, 2, 1)>>, <<AmtW(0, 1, 1)>>, <<AmtW(0, 2, 0)>> } :
+               c = VCase("A", "OTH", ins, ScriptOuts(os))
+
+InitV == InitV1 \/ InitV2 \/ InitV3 \/ InitV4
 
 --------------------------------------------------------------------------
 (* family P: the widened product of shapes (C05) *)
@@ -274,7 +301,7 @@ InitP1 == \E sl \in SliceSet, ti \in 1..Len(PTypes), si \in 1..Len(PShapes), gi 
 
 \* values: amount class, extra class, references, environment
 PTypes2 == PTypes \o <<"mint", "deposit">>
-ConsAmt == Amt(-1, 0, 0, 0, 0)      \* stands for "the input amount"
+ConsAmt == Amt(-1, 0, 0, 0, 0)     \* stands for "the input amount"
 PAmts == <<ConsAmt, ZeroAmt, U(1), U(10000), P1, H1, G1, Amt(2, 0, 0, 0, 0)>>
 PExtras == <<"nat", "e0", "e1", "e32", "e63", "e64", "e96", "e256", "e257", "e1024", "e1025", "e2048", "e2049", "pledgeOK",
              "pledgeBadKey", "pledgeSigner", "pledgePayee", "acceptEq", "removeEq1", "removeEq2", "claimOK", "claimBad",
@@ -338,7 +365,15 @@ InitP0c == \E ti \in 1..Len(PTypes2) :
                     c = [Case("B", "XIN", ins, <<Out(ot, tot)>>, SigOf(PSigs[gi], L0, ins))
                             EXCEPT !.extra = NatExtra(ot), !.refs = NatRefs(ot)]
 
-InitP == InitP0 \/ InitP0b \/ InitP0c \/ InitP1 \/ InitP2
+\* core: cancel-typed transactions spending the real pending pledge output, with the 96-byte extra
+\* whose tail is used as a scalar by the cancel rule
+InitP0d == \E wt \in {<<"B", "late">>, <<"B", "gen">>, <<"A", "late">>}, e \in {"cancelOK", "cancelFF", "cancelZero", "e96"},
+              sg \in {"node", "wk", "none"}, a \in {U(1), U(2)}, sh \in {<<1, "t1">>, <<2, "t1">>, <<1, "t2">>} :
+           LET L0 == World(wt[1])  ins == <<In("pl")>>
+               o2 == [Out("script", U(100 - a.n)) EXCEPT !.nk = sh[1], !.scr = sh[2]]
+           IN c = [Case(wt[1], "XIN", ins, <<Out("cancel", a), o2>>, SigOf(sg, L0, ins)) EXCEPT !.ts = wt[2], !.extra = e]
+
+InitP == InitP0 \/ InitP0b \/ InitP0c \/ InitP0d \/ InitP1 \/ InitP2
 
 --------------------------------------------------------------------------
 Init == CASE Family = "S" -> InitS
